@@ -36,7 +36,10 @@ Section Inv2.
                 f_isptr (src_at s i) = ptrness (f_ty (src_at s i)) /\ f_isptr (dst_at s j) = ptrness (f_ty (dst_at s j));
     i2_ptr_from : forall j i, j < length (s_dst s) -> f_target (dst_at s j) = Some i ->
                 submap_flag (src_at s i) = true ->
-                f_isptr (dst_at s j) = ptrness (f_ty (dst_at s j)) /\ f_isptr (src_at s i) = ptrness (f_ty (src_at s i))
+                f_isptr (dst_at s j) = ptrness (f_ty (dst_at s j)) /\ f_isptr (src_at s i) = ptrness (f_ty (src_at s i));
+    (* a field that is written (it is some reader's Target) is not a getter pseudo-field *)
+    i2_get_to : forall i j, i < length (s_src s) -> f_target (src_at s i) = Some j -> f_isget (dst_at s j) = false;
+    i2_get_from : forall j i, j < length (s_dst s) -> f_target (dst_at s j) = Some i -> f_isget (src_at s i) = false
   }.
 
   Lemma src_at_to_claim s i j g h k : i < length (s_src s) ->
@@ -135,6 +138,17 @@ Section Inv2.
       rewrite src_at_to_claim, dst_at_to_claim by auto. split.
       + destruct (Nat.eqb_spec j j0) as [->|]; auto. destruct Pg as [X|X]; congruence.
       + destruct (Nat.eqb_spec i i0) as [->|]; auto. destruct (Ph (Some j0)) as [X|X]; congruence.
+    - intros i j Hi T. rewrite LS in Hi. rewrite src_at_to_claim in T by auto. rewrite dst_at_to_claim by auto.
+      destruct (Nat.eqb_spec i i0) as [->|Ne].
+      + rewrite Th in T. simpl in T. inversion T; subst j. rewrite Nat.eqb_refl.
+        destruct (Kg (dst_at s j0)) as (_ & _ & X & _). rewrite X.
+        unfold dst_free in F. apply andb_true_iff in F. destruct F as (_ & F). apply negb_true_iff in F. exact F.
+      + assert (Nj : j <> j0) by (eapply NotJ0; eauto).
+        destruct (Nat.eqb_spec j j0); [congruence|]. apply (i2_get_to _ I2 i j Hi T).
+    - intros j i Hj T. rewrite LD in Hj. rewrite TD in T. rewrite src_at_to_claim by auto.
+      pose proof (i2_get_from _ I2 j i Hj T) as X.
+      destruct (Nat.eqb_spec i i0) as [->|]; auto.
+      destruct (Khs (src_at s i0)) as (_ & _ & Y & _). rewrite Y. exact X.
   Qed.
 
   Lemma inv2_from s i0 j0 g h :
@@ -196,6 +210,17 @@ Section Inv2.
         destruct (PP SF) as (P1 & P2). split; auto.
       + destruct (NotI0 j i Hj T) as (Ni & _).
         destruct (Nat.eqb_spec i i0); [congruence|]. apply (i2_ptr_from _ I2 j i Hj T SF).
+    - intros i j Hi T. rewrite LS in Hi. rewrite TS in T. rewrite dst_at_from_claim by auto.
+      pose proof (i2_get_to _ I2 i j Hi T) as X.
+      destruct (Nat.eqb_spec j j0) as [->|]; auto.
+      destruct (Khs (dst_at s j0)) as (_ & _ & Y & _). rewrite Y. exact X.
+    - intros j i Hj T. rewrite LD in Hj. rewrite dst_at_from_claim in T by auto. rewrite src_at_from_claim by auto.
+      destruct (Nat.eqb_spec j j0) as [->|Ne].
+      + rewrite Th in T. simpl in T. inversion T; subst i. rewrite Nat.eqb_refl.
+        destruct (Kg (src_at s i0)) as (_ & _ & X & _). rewrite X.
+        unfold src_free in F. apply andb_true_iff in F. destruct F as (_ & F'). apply negb_true_iff in F'. exact F'.
+      + destruct (NotI0 j i Hj T) as (Ni & _).
+        destruct (Nat.eqb_spec i i0); [congruence|]. apply (i2_get_from _ I2 j i Hj T).
   Qed.
 
   Lemma inv2_trans s s' : TRANS s s' -> Inv2 s -> Inv2 s'.
@@ -214,6 +239,8 @@ Section Inv2.
     (forall j, j < length (s_dst s) -> f_target (dst_at s j) = None) -> Inv2 s.
   Proof.
     intros I HS HD. constructor; auto.
+    - intros i j Hi T. rewrite HS in T; auto. discriminate.
+    - intros j i Hj T. rewrite HD in T; auto. discriminate.
     - intros i j Hi T. rewrite HS in T; auto. discriminate.
     - intros j i Hj T. rewrite HD in T; auto. discriminate.
     - intros i j Hi T. rewrite HS in T; auto. discriminate.
